@@ -53,7 +53,7 @@ def c_trailing_newline_sid(v):
     """Sid string whose LAST segment is a closed-pattern value followed by exactly one '\\n':
     resolva anchors with '$', which also matches before a trailing newline."""
     c = _case(v)
-    s = c.get("s")
+    s = c.get("base") or c.get("s")      # (base: the string before a query tail)
     return (isinstance(s, str) and s.endswith("\n") and not s.endswith("\n\n")
             and v.get("kind", "").split(":")[-1] in ("typed_but_oracle_untyped", "typed_differently", "inconsistent_typed")
             and c.get("got_type") and c.get("got_type") == c.get("type_without_trailing_nl"))
